@@ -7,7 +7,7 @@
     the real code (operator new and GMP allocation failing at position k, abandonment at checkpoint k, weight thresholds, coefficient
     overflow on the checked-int8 build) and is reported as enumeration, not proof."""
 import os, json, hashlib, shutil, re, time
-import common, polycheck, polyrun, c14_fault, c14_reject
+import common, polycheck, polyrun, c14_fault, c14_reject, c14_rejdom
 
 BIN = os.path.join(common.BUILD, "c14-bin")
 HDRS = ["c14_alloc.h", "c14_scenarios.h", "c14_scenarios2.h"]
@@ -35,6 +35,20 @@ def build_fault(config):
         if not os.path.exists(dst):
             for old in os.listdir(BIN):
                 if old.startswith("run_fault_%s_" % config):
+                    try: os.remove(os.path.join(BIN, old))
+                    except OSError: pass
+            shutil.copy(exe, dst)
+    return dst
+
+
+def build_rejdom():
+    os.makedirs(BIN, exist_ok=True)
+    with common.Lock("c14-link-rejdom"):
+        exe = retry(common.compile_harness, "run_rejdom.cc")
+        dst = os.path.join(BIN, "run_rejdom_" + os.path.basename(os.path.dirname(exe))[-16:] + os.path.basename(exe)[-10:])
+        if not os.path.exists(dst):
+            for old in os.listdir(BIN):
+                if old.startswith("run_rejdom_"):
                     try: os.remove(os.path.join(BIN, old))
                     except OSError: pass
             shutil.copy(exe, dst)
@@ -303,6 +317,24 @@ def run(chk):
     if res["calls"]:
         chk.samples.append({"rejected_call_ops": sorted(res["by_op"])[:8]})
     chk.log("(a) %d ill-formed calls: %d rejected, %d accepted borderline, %d mismatches, %d state failures" % (res["calls"], res["rejected"], res["accepted"], len(res["mismatch"]), len(res["judge_fails"])))
+
+    # ---- (a') rejected calls outside Polyhedron: every domain / solver, every documented kind of ill-formed argument, every receiver state class ----
+    if want("rejdom"):
+        rd = c14_rejdom.run(build_rejdom(), judge_exc, os.path.join(common.BUILD, "work-C14-rejdom-%d" % os.getpid()))
+        shutil.rmtree(os.path.join(common.BUILD, "work-C14-rejdom-%d" % os.getpid()), ignore_errors=True)
+        chk.evaluations += rd["attempts"]
+        for v in rd["variants"]: chk.nontrivial.add(("rejdom",) + v)
+        chk.extra["rejected_calls_other_domains"] = {"attempts": rd["attempts"], "by_domain": dict(rd["by_dom"]), "by_kind": dict(rd["by_kind"]),
+                                                       "expectation_from_coq_ladder": rd["model_checked"], "failing_groups": len(rd["groups"]), "exhaustive": True}
+        if rd["rc"] != 0 or rd["attempts"] < 4000:
+            chk.failure({"mode": "rejdom", "dom": "harness", "what": "crash-or-incomplete"}, {"rc": rd["rc"], "attempts": rd["attempts"], "tail": rd["tail"]})
+        for (r, m) in rd["model_disagrees_with_doc_table"]:
+            chk.broken.append(("rejdom-model-vs-documentation-table", "%s: coq ladder says %s" % (r, m)))
+        agg = Agg()
+        for info, detail in rd["groups"]:
+            agg.add(info, detail)
+        agg.flush(chk)
+        chk.log("(a') %d ill-formed calls on the other domains / solvers: %d failing groups" % (rd["attempts"], len(rd["groups"])))
 
     # ---- (b) experiment on the GMP layer ----
     rc, out = common.sh([exe, "gmpprobe"], timeout=120)
